@@ -314,6 +314,20 @@ class E1:
                     k = self.const_of(r[2]) if len(r) > 2 else None
                     if k is not None and strip(canon(r[1])) == strip(canon(bb)) and ((r[0] == "lt" and k <= bits) or (r[0] == "le" and k < bits)):
                         return "ok", "guard %s %s %d (< %d bits)" % (short(bb), "<" if r[0] == "lt" else "<=", k, bits), desc, True
+        if op in ("Add", "Sub"):
+            # last resort before reporting: the linear-inequality domain over the release-mode guards (overflow flags exist in
+            # checked builds only and are dropped), with every allocation-bounded atom <= isize::MAX
+            from .lin import State, USIZE_MAX
+            facts_ = [r for r in rels if r[0] in ("lt", "le", "eq", "ne") or (r[0] == "truth" and not (isinstance(uncast(r[1]), tuple) and uncast(r[1])[0] == "ovf"))]
+            st = State(facts_)
+            goal = ("le", bb, a) if op == "Sub" else ("le", ("bin", "Add", a, bb), ("const", USIZE_MAX))
+            st.lin.relation(goal)                      # register the goal's atoms
+            for e_ in list(st.lin.names):
+                if self.is_ab(e_, rels):
+                    st.add(("le", e_, ("const", ISIZE_MAX)))
+            if st.entails(goal):
+                return "ok", "%s by the dominating guards in the linear-inequality domain (allocation-bounded atoms <= isize::MAX)" % (
+                    "%s <= %s" % (short(bb), short(a)) if op == "Sub" else "%s + %s <= usize::MAX" % (short(a), short(bb))), desc, True
         key = "E1|%s|%s|%s" % (b.id, op, desc)
         if key in ALLOW:
             return "allow", ALLOW[key], desc, True
